@@ -111,6 +111,18 @@ Proof.
     f_equal. symmetry. exact (proj2 (offsets_shape le cs recs)).
 Qed.
 
+Theorem link_recompress_files : S_link_recompress_files.
+Proof.
+  intros leA stA fA textA selA leB stB fB textB cuts sels arrival g restA restB
+         HwA HstA HwB HstB Hg HselA Hcuts Hsels Hperm.
+  exists g.
+  destruct (link_load_par leB stB fB textB cuts g sels arrival restB HwB HstB Hg Hcuts Hsels Hperm)
+    as (bs & lens & Hpar & Hload).
+  exists bs, lens. split; [|split; assumption].
+  exact (link_load_seq leA stA fA textA g selA restA HwA HstA Hg HselA).
+Qed.
+
+Print Assumptions link_recompress_files.
 Print Assumptions link_load_files.
 Print Assumptions link_dcf_par_load.
 Print Assumptions link_load_par.
